@@ -312,6 +312,13 @@ func (p *Program) RunChild(o RunOpt) *RunResult {
 	if f, err := os.ReadFile(filepath.Join(outdir, "clean.out")); err == nil {
 		res.CleanOut = string(f)
 		res.Summary = ParseSummary(res.CleanOut)
+		// a -trimpath build registers (and reports) paths relative to the working directory
+		for i, p := range res.Summary.Files {
+			if !filepath.IsAbs(p) {
+				res.Summary.Files[i] = filepath.Join(cmd.Dir, p)
+			}
+		}
+		sort.Strings(res.Summary.Files)
 	}
 	return res
 }
